@@ -2,6 +2,7 @@ package main
 
 import (
 	"fmt"
+	"go/token"
 	"go/types"
 	"strings"
 
@@ -60,6 +61,7 @@ func (r *Run) invoke(st *State, fr *Frame, cc *ssa.CallCommon, fnv Val, args []V
 	case *Closure:
 		return r.callFunction(st, fr, f.Fn, f.Binds, args, dst, in, cc)
 	case *BoundMethod:
+		e.regionWrite1(st, "cnt.calls", SInt, f.Term, App(SInt, "+", e.regionRead(st, "cnt.calls", []Sort{SFn}, SInt, f.Term), IntLit(1)))
 		if f.Fn != nil {
 			return r.callFunction(st, fr, f.Fn, nil, append([]Val{f.Recv}, args...), dst, in, cc)
 		}
@@ -75,6 +77,20 @@ func (r *Run) invoke(st *State, fr *Frame, cc *ssa.CallCommon, fnv Val, args []V
 	}
 	e.fail("call of %T at %s", fnv, e.posOf(in))
 	r.setResult(st, fr, dst, r.freshResults(st, sig, "badcall"))
+	return nil
+}
+
+// invokeInjected runs a deferred call that was registered in an earlier iteration of a cut loop: only the
+// function value is known (from the cell named by the pending-defer clause).
+func (r *Run) invokeInjected(st *State, fr *Frame, d Deferred) []*State {
+	e := r.e
+	f := e.asTerm(d.Fn, SFn)
+	e.regionWrite1(st, "cnt.calls", SInt, f, App(SInt, "+", e.regionRead(st, "cnt.calls", []Sort{SFn}, SInt, f), IntLit(1)))
+	if m, ok := e.methods[f.S]; ok && m.Name == "context.CancelFunc" {
+		c := e.asTerm(m.Recv, SAny)
+		e.region(st, "ctx.cancelled", []Sort{SAny}, SBool)
+		e.regionWrite1(st, "ctx.cancelled", SBool, c, True)
+	}
 	return nil
 }
 
@@ -283,6 +299,30 @@ func (r *Run) pushFrame(st *State, fn *ssa.Function, binds []Val, args []Val, ds
 // callOrdinal: index of this call among the calls of the same callee in the calling function.
 func (e *Engine) callOrdinal(caller *ssa.Function, in ssa.Instruction, callee string) int {
 	n := 0
+	if callee == "recv" {
+		for _, b := range caller.Blocks {
+			for _, i := range b.Instrs {
+				isRecv := false
+				switch x := i.(type) {
+				case *ssa.UnOp:
+					isRecv = x.Op == token.ARROW
+				case *ssa.Select:
+					for _, s := range x.States {
+						if s.Dir == types.RecvOnly {
+							isRecv = true
+						}
+					}
+				}
+				if isRecv {
+					if i == in {
+						return n
+					}
+					n++
+				}
+			}
+		}
+		return n
+	}
 	if callee == "send" {
 		// ordinal among the instructions that can send (Send, Select with a send case)
 		for _, b := range caller.Blocks {
@@ -445,6 +485,28 @@ func (r *Run) applyContract(st *State, fr *Frame, fn *ssa.Function, blk *Block, 
 		}
 		st.assume(c.boolTerm(x))
 	}
+	for _, cl := range blk.All("holds") {
+		x, err := parseSpec(cl.Expr)
+		if err != nil {
+			e.fail("%v", err)
+			continue
+		}
+		c := mkCtx(st, nil)
+		v := c.eval(x)
+		key, ok := v.V.(T)
+		goal := False
+		if ok {
+			var ds []T
+			for _, l := range st.Locks {
+				if len(cl.Words) > 0 && cl.Words[0] == "W" && l.Mode != LockW {
+					continue
+				}
+				ds = append(ds, Eq(l.Key, key))
+			}
+			goal = Or(ds...)
+		}
+		e.emitWith(st, fmt.Sprintf("%s/requires@%s#%d:holds", caller, callee, ord), "", nil, goal, "caller holds "+cl.Expr, e.posOf(in), []string{"C11"}, cl)
+	}
 	e.usedContracts[callee] = true
 	var forks []*State
 	// panics clauses (evaluated in the pre-state)
@@ -499,7 +561,15 @@ func (r *Run) applyContract(st *State, fr *Frame, fn *ssa.Function, blk *Block, 
 			e.fail("%v", err)
 			continue
 		}
-		st.assume(mkCtx(st, old).boolTerm(x))
+		nerr := len(e.errors)
+		t := mkCtx(st, old).boolTerm(x)
+		if len(e.errors) > nerr {
+			// the clause talks about the callee's internals (locals, call records): not usable at call sites
+			e.errors = e.errors[:nerr]
+			e.note("postcondition %s/%s mentions callee-internal state and is not assumed at call sites", callee, cl.Label())
+			continue
+		}
+		st.assume(t)
 	}
 	for _, cl := range blk.All("lockpost") {
 		r.applyLockPost(st, fn, cl, vars)
@@ -659,7 +729,7 @@ func (r *Run) builtin(st *State, fr *Frame, b *ssa.Builtin, cc *ssa.CallCommon, 
 		ml := e.mapLayout(cc.Args[0].Type())
 		m := e.asTerm(args[0], SRef)
 		k := e.asTerm(args[1], ml.ksort)
-		r.mapAccessCheck(st, fr, m, true, in)
+		r.mapKeyAccessCheck(st, fr, m, k, in)
 		e.mapDelete(st, ml, m, k)
 	case "close":
 		ch := e.asTerm(args[0], SChan)
